@@ -18,9 +18,25 @@ def cstr(s):
     return '(bs [%s]%%nat)' % ';'.join(map(str, b))
 
 
+_CHUNK = 10 ** 200
+
+
 def cZ(n):
     assert isinstance(n, int) and not isinstance(n, bool), n
-    return '(%d)%%Z' % n
+    if abs(n) < _CHUNK:
+        return '(%d)%%Z' % n
+    # long literals are slow to parse in Coq: emit Horner form over 200-digit chunks (evaluated by vm_compute)
+    import sys
+    if hasattr(sys, 'set_int_max_str_digits'):
+        sys.set_int_max_str_digits(0)
+    a, chunks = abs(n), []
+    while a:
+        a, r = divmod(a, _CHUNK)
+        chunks.append(r)
+    t = '%d' % chunks[-1]
+    for c in reversed(chunks[:-1]):
+        t = '(%s * pow10_200 + %d)' % (t, c)
+    return '(%s%s)%%Z' % ('- ' if n < 0 else '', t)
 
 
 def cnat(n):
